@@ -523,11 +523,19 @@ func genPlanOpt(seed uint64, prop string, cold bool) *Plan {
 	maxOps := []int{3, 6, 12, 25, 40}[r.intn(5)]
 
 	nParse := 0
-	hot := !cold && r.chance(map[bool]float64{true: 0.15, false: 0.05}[prop == "C14"])
+	// (in a young process a contended plan meets the library's first-use
+	// windows: every task is at the same place at the same time)
+	hot := r.chance(map[bool]float64{true: 0.15, false: 0.05}[prop == "C14"]) || (cold && r.chance(0.3))
 	sweep := !hot && !cold && r.chance(0.06)
 	repeat := !hot && !sweep && !cold && r.chance(0.05)
+	firstUse := cold && r.chance(0.5)
+	if firstUse {
+		hot = false
+	}
 	neigh := !hot && !sweep && !repeat && !cold && r.chance(map[bool]float64{true: 0.03, false: 0.08}[prop == "C14"])
-	if neigh {
+	if firstUse {
+		nTasks, nParse = genFirstUse(r, p)
+	} else if neigh {
 		nTasks, nParse = genNeighbours(r, p)
 	} else if hot {
 		nTasks, nParse = genHot(r, p)
@@ -768,6 +776,10 @@ func genPlanOpt(seed uint64, prop string, cold bool) *Plan {
 	if neigh {
 		p.Policy = []string{"pct", "rr", "pct", "rr", "stall"}[r.intn(5)] // preemption inside the calls
 	}
+	lockstep := cold && nTasks > 1 && r.chance(map[bool]float64{true: 0.6, false: 0.35}[firstUse])
+	if lockstep {
+		p.Policy = "rr" // tasks advance almost statement by statement: one follows the other through every first-use initialisation
+	}
 	if nTasks == 1 {
 		p.Policy = "seq"
 	}
@@ -836,6 +848,10 @@ func genPlanOpt(seed uint64, prop string, cold bool) *Plan {
 		}
 	case "rr":
 		q := int64([]int{3, 8, 25, 80, 300}[r.intn(5)])
+		if lockstep {
+			q = int64([]int{1, 2, 3, 5}[r.intn(4)])
+			p.Quantum = q // ... for the whole run, not only for the listed preemptions
+		}
 		for t := 0; t < nTasks; t++ {
 			var g []int64
 			for k := 0; k < 60; k++ {
@@ -959,7 +975,10 @@ func genPlanOpt(seed uint64, prop string, cold bool) *Plan {
 			}
 		}
 	}
-	p.LoudObs = cold && prop != "C14" && r.chance(0.6)
+	p.LoudObs = cold && prop != "C14" && (firstUse || r.chance(0.6))
+	if firstUse {
+		p.Policy = "first-" + p.Policy
+	}
 	if hot {
 		p.Policy = "hot-" + p.Policy
 	}
@@ -1102,6 +1121,67 @@ func genHot(r *rng, p *Plan) (nTasks, nParse int) {
 			ops = append(ops, ins...)
 			p.Tasks[t] = append(ops, p.Tasks[t][at:]...)
 		}
+	}
+	return nTasks, nParse
+}
+
+// genFirstUse (young processes only): 2-4 tasks that all begin with the SAME
+// kind of operation on objects of ONE version - the same vector in half of the
+// plans - so that they meet whatever that operation initialises on first use
+// (lazily built tables, caches, once-guards) at the same moment.
+func genFirstUse(r *rng, p *Plan) (nTasks, nParse int) {
+	ver := versions[r.intn(4)]
+	sp := specs[ver]
+	nTasks = 2 + r.intn(3)
+	same := genValid(r, ver)
+	sameVec := r.chance(0.5)
+	kind := r.pick([]string{kScore, kScore, kParse, kVector, kGet, kSet, kRTrip, kNomen, kRating})
+	if (kind == kNomen && !apis[ver].HasNomen()) || (kind == kRating && !apis[ver].HasRating()) {
+		kind = kScore
+	}
+	scoreName := r.pick(apis[ver].ScoreNames())
+	m := sp.Metrics[r.intn(len(sp.Metrics))]
+	for t := 0; t < nTasks; t++ {
+		init := same
+		if !sameVec {
+			init = genValid(r, ver)
+		}
+		if kind == kParse && r.chance(0.6) {
+			init = "" // not even a parse before the tasks
+		}
+		p.Cells = append(p.Cells, CellSpec{Ver: ver, Mode: mPriv, Owner: t, Init: init})
+	}
+	for t := 0; t < nTasks; t++ {
+		mk := func(k string) Op {
+			op := Op{K: k, C: t, D: -1}
+			switch k {
+			case kParse:
+				nParse++
+				op.C, op.V, op.D = -1, ver, t
+				op.S = same
+				if !sameVec {
+					op.S = genValid(r, ver)
+				}
+			case kScore:
+				op.S = scoreName
+			case kGet:
+				op.S = m.Abv
+			case kSet:
+				op.S, op.S2 = m.Abv, r.pick(m.Values)
+			case kRating:
+				op.C, op.V, op.F = -1, ver, genRatingArg(r)
+			}
+			return op
+		}
+		ops := []Op{mk(kind)}
+		for n := 2 + r.intn(6); n > 0; n-- {
+			k := r.pick([]string{kScore, kVector, kGet, kSet, kRTrip, kParse, kind, kind})
+			if k == kScore {
+				scoreName = r.pick(apis[ver].ScoreNames())
+			}
+			ops = append(ops, mk(k))
+		}
+		p.Tasks = append(p.Tasks, ops)
 	}
 	return nTasks, nParse
 }
